@@ -44,6 +44,8 @@ ORD = z3.Function('ORD', DS, Bool)
 FRESH = z3.Function('FRESH', DS, Bool)
 IREF = z3.Function('IREF', DS, Int)          # where a with_key iteration of a stage without items fails
 IEXC = z3.Function('IEXC', DS, Exc)
+CP = z3.Function('CP', DS, Int, DS)            # the c-th copy taken of a dataset (I-copy)
+FROZEN = z3.Function('FROZEN', DS, Bool)       # a copy taken with freeze=True
 # symbolic-length tuple of input datasets: IN(owner, j)
 IN = z3.Function('IN', Int, Int, DS)           # owner id (python int), index
 # user callables (A-PURE): outcome of f(x)
